@@ -29,6 +29,14 @@ Theorem C07_locker_no_leak : forall (threads : nat) (schedule : list lstep_op) (
   find n (lmap s) = Some a -> exists t, busy s t n = true.
 Proof. intros threads schedule n a s. apply no_leak. apply LInv_run. apply LInv_init. Qed.
 
+(* ... a Lock call is blocked only by a thread that IS inside the critical section of the same name: the inner mutex of a
+   counter is never left taken by nobody, so every hand-over happens (as long as holders unlock) *)
+Theorem C07_locker_blocked_by_a_holder : forall (threads : nat) (schedule : list lstep_op) (t : tid) (n : name) (a : addr),
+  let s := lk_run (lk_init threads) schedule in
+  pc_of s t = Waiting n a -> snd (lk_step s (Acquire t)) = Blocked ->
+  exists t', t' <> t /\ in_cs s t' n = true.
+Proof. intros threads schedule t n a s. apply blocked_by_a_holder. apply LInv_run. apply LInv_init. Qed.
+
 (* the invariant itself, step by step (what a change to the locker has to keep) *)
 Theorem C07_locker_invariant : forall s o, LInv s -> LInv (fst (lk_step s o)).
 Proof. exact LInv_step. Qed.
